@@ -169,6 +169,18 @@ def run_case(kind, p):
                                 f"{np.asarray(r[0][0]).tolist()} vs {low[0].tolist()}")
             except Exception as e:
                 msgs.append(f"{nm} raised {type(e).__name__}: {e}")
+            # a stack of three frames (the same frame: every frame is then evaluated at the same positions) with the peak list in the
+            # dtype the helpers use internally (int32): every frame's results obey the same bounds, the caller's list is not touched
+            try:
+                pk32 = np.asarray(peaks).astype(np.int32)
+                keep32 = pk32.copy()
+                r3 = fn(pattern, np.stack([frame, frame, frame]), pk32, upsample=us)
+                if not np.array_equal(pk32, keep32):
+                    msgs.append(f"{nm}: the peak list passed by the caller was modified ({keep32[:2].tolist()} -> {pk32[:2].tolist()})")
+                for fi in (1, 2):
+                    msgs += check_outputs(tuple(a[fi] for a in r3), keep32, c, usf, f"{nm} frame {fi} of 3", sentinel=False)
+            except Exception as e:
+                msgs.append(f"{nm} on a stack of three frames raised {type(e).__name__}: {e}")
     return msgs[:8]
 
 
